@@ -48,6 +48,71 @@ def classify(res):
     return f"unclassified ValueError in {fn}", "unclassified"
 
 
+def chunk_validator_rule(index, ctx):
+    """R4: whatever reaches the pipeline as parallel_chunk_size is None or positive — read off the paths of the validator that return
+    normally (the tests taken along each of them must imply `x is None or x > 0`, whatever else they ask)."""
+    import ast
+
+    from ..cfg import cfg_of
+    from ..guards import feasible, oriented, path_guards
+    from ..index import FunctionInfo
+    from ..report import norm_text
+
+    ctx.rule("R4", "the chunk-size validator called first by both entry points returns normally only for None or a positive value: every normally returning path "
+                   "implies `parallel_chunk_size is None or parallel_chunk_size > 0` (a value of another type that is not positive must not slip through: it would fail "
+                   "inside the Jacobian stage, after mtl_backward has accumulated the task gradients)")
+    for entry in ("torchjd.autojac.backward.backward", "torchjd.autojac.mtl_backward.mtl_backward"):
+        f = index.get_function(entry)
+        cands = []
+        for n in ast.walk(f.node):
+            if isinstance(n, ast.Call) and isinstance(n.func, ast.Name) and len(n.args) == 1 and not n.keywords and isinstance(n.args[0], ast.Name) and n.args[0].id == "parallel_chunk_size":
+                c = index.resolve_name(f.module, n.func.id)
+                if isinstance(c, FunctionInfo) and any(isinstance(x, ast.Raise) for x in ast.walk(c.node)):
+                    cands.append(c)
+        if len({c.qualname for c in cands}) != 1:
+            ctx.undecided("R4", f"{f.short}: chunk-size validation", "no single validator function is called with parallel_chunk_size", f.loc())
+            continue
+        v = cands[0]
+        x = v.node.args.args[0].arg
+
+        def classify(t, x=x):
+            if isinstance(t, ast.Compare) and len(t.ops) == 1:
+                l_, op, r_ = t.left, t.ops[0], t.comparators[0]
+                if isinstance(op, (ast.Is, ast.IsNot)):
+                    if isinstance(l_, ast.Constant) and l_.value is None:
+                        l_, r_ = r_, l_
+                    if isinstance(r_, ast.Constant) and r_.value is None and isinstance(l_, ast.Name) and l_.id == x:
+                        return ("N", isinstance(op, ast.Is))
+                o = oriented(t, lambda e: isinstance(e, ast.Name) and e.id == x)
+                if o is not None and isinstance(o[2], ast.Constant) and isinstance(o[2].value, (int, float)) and not isinstance(o[2].value, bool):
+                    c_ = o[2].value
+                    if (o[1] is ast.Gt and c_ == 0) or (o[1] is ast.GtE and c_ == 1):
+                        return ("P", True)
+                    if (o[1] is ast.LtE and c_ == 0) or (o[1] is ast.Lt and c_ == 1):
+                        return ("P", False)
+            return None
+
+        cfg = cfg_of(v.node)
+        bad = None
+        for path in cfg.acyclic_paths():
+            fz = feasible(path_guards(cfg, path), classify, domain=lambda a: not (a.get("N") and a.get("P")), extra_vars=("N", "P"))
+            if fz is None:
+                bad = ("too many conditions", None)
+                break
+            w = next((a for a in fz if not (a["N"] or a["P"])), None)
+            if w is not None:
+                free = {k_: v_ for k_, v_ in w.items() if k_ not in ("N", "P")}
+                bad = (f"a path returns normally for a value that is neither None nor positive" + (f" when {free}" if free else ""), w)
+                break
+        if bad is None:
+            ctx.ok("R4", f"{f.short}: {v.short} lets only None or a positive chunk size through", "every normally returning path implies `x is None or x > 0`", v.loc())
+        elif bad[1] is None:
+            ctx.undecided("R4", f"{v.short}: accepted chunk sizes", bad[0], v.loc())
+        else:
+            ctx.violated("R4", f"{v.short}: a non-positive chunk size can pass the up-front validation",
+                         bad[0] + ": it is refused (if at all) only inside the Jacobian stage, after mtl_backward has accumulated the task gradients", v.loc())
+
+
 def check(index, ctx):
     ctx.rule("R1", "inventory: every ValueError path of the abstractly executed entry points is classified by the construct that raises")
     ctx.rule("R2", "no .grad write precedes an argument rejection: on every path that ends in an argument-kind ValueError (and, for backward, an aggregator rejection) no .grad write event occurs")
@@ -99,6 +164,7 @@ def check(index, ctx):
                         f"first .grad write at {first['loc']} (on {first['target']}) happens before the expects-grad check of {missing} has completed: a tensor that is neither a leaf requiring grad "
                         f"nor retaining grad, listed in {missing}, makes the call raise ValueError after other .grad fields were modified", first["loc"],
                         derivation={"written": targets, "validated_before_first_write": sorted(covered)})
+    chunk_validator_rule(index, ctx)
     ctx.extra["rejection_inventory"] = inventory
     ctx.floor("argument-rejection paths inspected", n_rej, 30)
     _pipe.common_evidence(ctx, index)
